@@ -18,6 +18,10 @@ def run_case_generic(case, oracle, menu=explore.default_menu, horizon=None,
     base = {k: v for k, v in case.items() if k != "explore"}
     recs = []
     for rec in explore.explore(base, bound, menu=menu, horizon=horizon, timeout=timeout):
+        if rec.spy_errors:
+            from . import common
+            raise common.HarnessError("the harness' monitors failed (an internal name they read has probably "
+                                      "changed): " + rec.spy_errors[0])
         stats["runs"] += 1
         stats["evals"] += len(rec.pcalls)
         stats["deviated_runs"] += 1 if rec.case.get("dev") else 0
